@@ -182,6 +182,9 @@ def c08(run, replay=None):
             else:
                 run.violation("in-language-but-rejected: `prog %s` rejects %r although the documented syntax accepts it as %r" %
                               (r["usage"], r["argv"], r["ref"]["matches"][:2]), replay_of(r))
+    # the two tail theorems of Props/C08.v are about Tail.v: tie it to the code on this run's pairs too
+    tchecked, tdist = tail_correspondence(run, recs, 6000 if run.tier == "quick" else 100000)
+    run.coverage.update(tail_mirror_cases=tchecked, tail_mirror_outcomes=tdist)
     base_cov(run, recs, nus, racc,
              "same enumeration as C07; non-trivial = pairs the reference matcher accepts (the implementation must then accept)")
 
